@@ -27,11 +27,17 @@ CONFIGS = {
     "AU-rev": [("U", "B", 5, ["N3", "O4", "O2", "C1'", "N1"]), ("A", "A", 9, ["N1", "N6", "N7", "C1'", "N9"])],
     "GG-hoog": [("G", "A", 3, ["N1", "N2", "O6", "N7", "C1'", "N9"]), ("G", "A", 4, ["N1", "O6", "N7", "C1'", "N9"])],
     "AG-sugar": [("A", "A", 1, ["N3", "C2", "O2'", "C1'", "N9"]), ("G", "A", 7, ["N2", "N3", "O2'", "C1'", "N9"])],
+    "GA-sugar3": [("G", "A", 2, ["N1", "N2", "N3", "C1'", "N9"]), ("A", "A", 4, ["N6", "N7", "N1", "C1'", "N9"])],
     "GU-mixed": [("G", "A", 1, ["C8", "N7", "C1'", "N9"]), ("U", "A", 2, ["OP1", "O2'", "C1'", "N1"])],
     "bph-G": [("G", "A", 1, ["N1", "N2", "C8", "N3", "C2"]), ("U", "A", 2, ["OP1", "O2'"])],
-    "bph-C": [("C", "A", 5, ["N4", "C5", "N3", "C4"]), ("A", "A", 3, ["OP1", "O5'"])],
+    "bph-C": [("C", "A", 5, ["N4", "C5", "C6", "N3", "C4"]), ("A", "A", 3, ["OP1", "OP2", "O5'"])],
+    "bph-G3": [("G", "B", 2, ["N1", "N2", "C8", "N3", "C2"]), ("C", "A", 9, ["OP1", "OP2", "O5'"])],
     "bph-A": [("A", "B", 1, ["N6", "C2", "N1", "C6"]), ("G", "A", 1, ["OP2", "O2'"])],
 }
+
+
+# candidate contacts that may be in range (all others are out of range by assumption): keeps 3-donor x 3-acceptor configurations small
+ONLY = {"bph-C": {("N4", "OP1"), ("C5", "OP2"), ("C6", "O5'")}, "bph-G3": {("N1", "OP1"), ("N2", "OP2"), ("C8", "O5'")}}
 
 
 def load_spec():
@@ -130,6 +136,8 @@ def explore(cfg_name, order="fwd", models=None, model_arg=None):
                     if kind_of(a) == kind_of(b):
                         out.append((i, j))      # donor/donor and acceptor/acceptor candidates are skipped by the code at once: no fork needed
                         continue
+                    if cfg_name in ONLY and (a[1], b[1]) not in ONLY[cfg_name] and (b[1], a[1]) not in ONLY[cfg_name]:
+                        continue                # out of range by assumption of this configuration
                     key = tuple(sorted((a, b)))
                     v = near.setdefault(key, z3.Bool(f"near_{key[0][0]}{key[0][1]}_{key[1][0]}{key[1][1]}"))
                     if bool(SBool(eng, v)):
@@ -177,7 +185,7 @@ def explore(cfg_name, order="fwd", models=None, model_arg=None):
         paths = eng.explore(run, maxpaths=60000)
     finally:
         A.KDTree, A.angle_between_vectors, A.torsion_angle, A.math = saved
-    return eng, paths, {"residues": residues, "near": near, "angle_ok": angle_ok, "torsions": torsions, "cfg": cfg}
+    return eng, paths, {"residues": residues, "near": near, "angle_ok": angle_ok, "torsions": torsions, "cfg": cfg, "cfg_name": cfg_name}
 
 
 # ------------------------------------------------------------------------------------------------- analysis
@@ -202,6 +210,9 @@ def contacts_of(info):
             if k not in d:
                 d[k] = z3.Bool(name)
             return d[k]
+        cfgname = info.get("cfg_name")
+        if cfgname in ONLY and (a[1], b[1]) not in ONLY[cfgname] and (b[1], a[1]) not in ONLY[cfgname]:
+            continue
         near = var(info["near"], key, f"near_{key[0][0]}{key[0][1]}_{key[1][0]}{key[1][1]}")
         oks = [var(info["angle_ok"], (key, r), f"angle_{key[0][0]}{key[0][1]}_{key[1][0]}{key[1][1]}_n{r}") for r in (key[0][0], key[1][0])]
         donor, acceptor = (a, b) if kind(a) == "donor" else (b, a)
